@@ -33,5 +33,6 @@ FINDINGS = [
     ),
 ]
 FIXED = [
+    "fixed: property=C06 039e7cc json_schema emit raised AttributeError ('str' object has no attribute 'elts') for a parameter typed Literal['a'] (exactly one member)",
     "fixed: property=C06 5f2c9cf an interface with an empty description emitted \"description\": null, which the draft 2020-12 meta-schema rejects and cdd.json_schema.parse.json_schema crashed on",
 ]
